@@ -293,8 +293,14 @@ func logSvc(o *Out, v SV, rng *rand.Rand) {
 		}
 		r.BIG = Ints(big[:r.Size])
 		r.GB, r.FF, r.RND, r.Guard = Ints(gb), Ints(ff), Ints(rn), B2i(g1 && g2 && g3 && g4)
+		// decoded from a scratch copy that is overwritten right after the call: a decoded value must not keep references
+		// into its input (the socket receivers decode every datagram from one reused buffer)
+		in := append([]byte(nil), gb...)
 		var out knxnet.Service
-		n, err := knxnet.Unpack(gb, &out)
+		n, err := knxnet.Unpack(in, &out)
+		for i := range in {
+			in[i] = 0xEE
+		}
 		r.GN = int(n)
 		if err == nil {
 			r.GD, r.GOK = project(out), 1
@@ -481,7 +487,12 @@ func logStable(o *Out, b []byte) {
 	r := stabRec{K: "stab", B: Ints(b), V1: zeroSV(-1), V2: zeroSV(-1)}
 	p, _ := Guarded(func() {
 		var s1 knxnet.Service
-		if _, err := knxnet.Unpack(b, &s1); err != nil {
+		in := append([]byte(nil), b...)
+		_, err := knxnet.Unpack(in, &s1)
+		for i := range in {
+			in[i] = 0xEE
+		}
+		if err != nil {
 			return
 		}
 		v1 := project(s1)
